@@ -2,6 +2,7 @@
 stream; the instruction stream of the same code objects (breadth-first, as disco_loop visits them).
 argv: out.ndjson filelist.json [textdir]"""
 import collections
+import hashlib
 import io
 import json
 import os
@@ -17,7 +18,7 @@ with xd.quiet():
     from xdis.disasm import disassemble_file, get_opcode
     from xdis.load import load_module
 
-FORMATS = ["classic", "bytes", "extended", "extended-bytes", "xasm", "header"]
+FORMATS = os.environ.get("VERIF_FORMATS", "classic,bytes,extended,extended-bytes,xasm,header").split(",")
 ROW = re.compile(r"^\s*(?:(\d+):)?\s*(-->)?\s*(>>)?\s*(\d+)\s+(?:\|[0-9a-f ]+\|\s+)?(\S+)\s*(.*)$")
 
 
@@ -66,12 +67,8 @@ def main():
             ins, ver, err = [], [0, 0], ""
             try:
                 with xd.quiet():
-                    saved = xload.PYTHON_MAGIC_INT
-                    xload.PYTHON_MAGIC_INT = -1
-                    try:
+                    with xd.forced_portable():
                         (version, ts, magic_int, co, pypy, ss, sip) = load_module(path)
-                    finally:
-                        xload.PYTHON_MAGIC_INT = saved
                     ver = list(version[:2])
                     ins = stream(co, get_opcode(version, pypy))
             except Exception as e:
@@ -81,19 +78,15 @@ def main():
                 sys.stdout, sys.stderr = so, se
                 raised = ""
                 try:
-                    saved = xload.PYTHON_MAGIC_INT
-                    xload.PYTHON_MAGIC_INT = -1
-                    try:
+                    with xd.forced_portable():
                         disassemble_file(path, buf, fmt)
-                    finally:
-                        xload.PYTHON_MAGIC_INT = saved
                 except BaseException as e:
                     raised = "%s: %s" % (type(e).__name__, str(e)[:120])
                 finally:
                     sys.stdout, sys.stderr = real_out, real_err
                 text = buf.getvalue()
                 if textdir:
-                    with open(os.path.join(textdir, "%s.%s.txt" % (os.path.basename(path), fmt)), "w") as tf:
+                    with open(os.path.join(textdir, "%s.%s.txt" % (hashlib.sha1(path.encode()).hexdigest()[:16], fmt)), "w") as tf:
                         tf.write(text)
                 rec = {"id": "%s:%s" % (fmt, path), "fmt": fmt, "ver": ver, "raised": raised, "stdout": len(so.getvalue()), "stderr": len(se.getvalue()),
                        "rows": parse(text) if fmt in ("classic", "bytes") and not raised else [], "ins": ins if fmt in ("classic", "bytes") else [],
